@@ -5,7 +5,7 @@ import dataclasses
 import types
 from typing import Any, Iterable, Union, get_type_hints, TYPE_CHECKING
 from dataclasses import dataclass, field
-from sigma.conditions import ConditionOR
+from sigma.conditions import ConditionAND, ConditionOR
 from sigma.correlations import SigmaCorrelationCondition, SigmaCorrelationRule
 from sigma.rule import SigmaRule, SigmaDetection, SigmaDetectionItem
 from sigma.exceptions import (
@@ -13,6 +13,7 @@ from sigma.exceptions import (
     SigmaTransformationError,
 )
 from sigma.types import (
+    SigmaExpansion,
     SigmaString,
     SigmaType,
     SigmaFieldReference,
@@ -352,25 +353,49 @@ class ValueTransformation(DetectionItemTransformation):
         except IndexError:  # No type annotation found
             self.value_types = None
 
+    def _apply_value_to(self, field: str | None, value: SigmaType) -> tuple[list[SigmaType], bool]:
+        """
+        Call apply_value for a value or, for value expansions, for each value contained in the
+        expansion. Returns the list of replacement values and if something was modified.
+        """
+        if isinstance(value, SigmaExpansion):
+            expansion_values: list[SigmaType] = []
+            expansion_modified = False
+            for expansion_value in value.values:
+                replacements, replaced = self._apply_value_to(field, expansion_value)
+                expansion_values.extend(replacements)
+                expansion_modified = expansion_modified or replaced
+            if expansion_modified:
+                return [SigmaExpansion(expansion_values)], True
+            return [value], False
+        if self.value_types is None or isinstance(
+            value, self.value_types
+        ):  # run replacement if no type annotation is defined or matching to type of value
+            res = self.apply_value(field, value)
+            if res is None:  # no value returned: keep value
+                return [value], False
+            elif isinstance(res, Iterable) and not isinstance(res, SigmaType):
+                return list(res), True
+            else:
+                return [res], True
+        # pass original value if type doesn't matches to apply_value argument type annotation
+        return [value], False
+
     def apply_detection_item(self, detection_item: SigmaDetectionItem) -> SigmaDetectionItem | None:
         """Call apply_value for each value and integrate results into value list."""
         results = []
         modified = False
         for value in detection_item.value:
-            if self.value_types is None or isinstance(
-                value, self.value_types
-            ):  # run replacement if no type annotation is defined or matching to type of value
-                res = self.apply_value(detection_item.field, value)
-                if res is None:  # no value returned: drop value
-                    results.append(value)
-                elif isinstance(res, Iterable) and not isinstance(res, SigmaType):
-                    results.extend(res)
-                    modified = True
-                else:
-                    results.append(res)
-                    modified = True
-            else:  # pass original value if type doesn't matches to apply_value argument type annotation
-                results.append(value)
+            replacements, replaced = self._apply_value_to(detection_item.field, value)
+            if (
+                replaced
+                and len(replacements) > 1
+                and detection_item.value_linking is ConditionAND
+            ):  # alternatives for one value stay OR-linked if the values are AND-linked
+                results.append(SigmaExpansion(replacements))
+            else:
+                results.extend(replacements)
+            modified = modified or replaced
         if modified:
             detection_item.value = results
             return detection_item
